@@ -158,6 +158,16 @@ theorem sortTypes_eq_of_perm {a b : List TypeD} (h : a.Perm b) (hn : (a.map (·.
 
 /-! ### `Accepted`: the hypothesis of the theorems, and what it gives -/
 
+/-- No directive argument type requires features (not enforced by `schema.New`: finding F-10g). -/
+def DirArgsUngated (S : Schema) : Prop := dirArgsUngated S.defn = true
+
+theorem dirArgFeat_of {S : Schema} (h : DirArgsUngated S) :
+    ∀ dd ∈ S.defn.directives, ∀ a ∈ dd.args, S.defn.featuresOf a.type.ref.leaf = [] := by
+  unfold DirArgsUngated dirArgsUngated at h
+  simp only [List.all_eq_true, beq_iff_eq] at h
+  exact h
+
+
 /-- **Accepted S**: the model's acceptance predicate holds (evaluated by the harness on the
     registries of every schema the real `schema.New` returns). -/
 def Accepted (S : Schema) : Prop := accepted S = true
@@ -194,7 +204,6 @@ structure Facts (S : Schema) : Prop where
     ∀ m ∈ t.members, subsetOf (S.defn.featuresOf m) t.feat.keys = true
   inputFeat : ∀ t ∈ S.defn.types, t.name ∈ S.namedTypes → t.kind = .inputObject →
     ∀ a ∈ t.inputs, subsetOf (S.defn.featuresOf a.type.ref.leaf) t.feat.keys = true
-  dirArgFeat : ∀ dd ∈ S.defn.directives, ∀ a ∈ dd.args, S.defn.featuresOf a.type.ref.leaf = []
 
 theorem facts_of_accepted {S : Schema} (h : Accepted S) : Facts S := by
   unfold Accepted accepted at h
@@ -210,13 +219,13 @@ theorem facts_of_accepted {S : Schema} (h : Accepted S) : Facts S := by
     List.contains_eq_mem, decide_eq_true_eq, decide_eq_false_iff_not, List.isEmpty_iff] at hwf hcl himp hf hk
   obtain ⟨⟨⟨⟨h1, h2⟩, h3⟩, h4⟩, h5⟩ := hcl
   obtain ⟨hi0, hi⟩ := himp
-  obtain ⟨hf1, hf2⟩ := hf
+  have hf1 := hf
   obtain ⟨⟨hw1, hw2⟩, hw3⟩ := hwf.1
   have hw4 := hwf.2
   have hshape := hk.2
   refine ⟨hw1, hw2, hw3, fun t ht => (hw4 t ht).1.1.1.1.1, fun t ht => (hw4 t ht).1.1.1.1.2,
     fun t ht => (hw4 t ht).1.1.1.2, fun t ht => (hw4 t ht).1.1.2, fun t ht => (hw4 t ht).1.2,
-    fun t ht => (hw4 t ht).2, h1, h2, h3, ?_, h4, ?_, ?_, ?_, ?_, ?_, ?_, ?_, ?_, ?_, ?_, ?_, ?_⟩
+    fun t ht => (hw4 t ht).2, h1, h2, h3, ?_, h4, ?_, ?_, ?_, ?_, ?_, ?_, ?_, ?_, ?_, ?_, ?_⟩
   · intro t ht hreg n hn
     rcases h5 t ht with h | h
     · exact absurd hreg h
@@ -280,8 +289,6 @@ theorem facts_of_accepted {S : Schema} (h : Accepted S) : Facts S := by
     · rcases h.2 with h' | h'
       · exact absurd hkind h'
       · exact h' a ha
-  · intro dd hdd a ha
-    exact hf2 dd hdd a ha
 
 /-! ### describe_exact -/
 
@@ -410,6 +417,319 @@ theorem typeData_eq_describeType {S : Schema} (hf : Facts S) (F : List String) {
   · simp [hk, impls_eq hf F ht hk hv, restrict]
   · simp [hk, ifaces_filter_eq hf F ht hreg, restrict]
 
+
+
+/-! ### Closure of the visible schema, references of a description -/
+
+theorem mem_visible_names {S : Schema} (hf : Facts S) {F : List String} {n : String}
+    (h : visibleName S F n = true) : n ∈ (visible S F).types.map (·.name) := by
+  rw [visible_types_names]
+  have hr := reg_of_visibleName h
+  have := hf.regLookup n hr
+  cases hl : S.defn.lookup n with
+  | none => simp [hl] at this
+  | some t =>
+    obtain ⟨ht, hname⟩ := lookup_some hl
+    rw [← hname]
+    have hmem : t ∈ S.defn.types.filter (fun t => visibleName S F t.name) := by
+      rw [List.mem_filter]
+      exact ⟨ht, by rw [hname]; exact h⟩
+    exact List.mem_map_of_mem (f := fun (x : TypeDef Unit) => x.name) hmem
+
+theorem visibleName_of {S : Schema} {F : List String} {n : String} (hr : n ∈ S.namedTypes)
+    (hfe : subsetOf (S.defn.featuresOf n) F = true) : visibleName S F n = true := by
+  simp [visibleName, hr, hfe]
+
+theorem visible_feat {S : Schema} (hf : Facts S) {F : List String} {t : TypeDef Unit}
+    (ht : t ∈ S.defn.types) (hv : visibleName S F t.name = true) : subsetOf t.feat.keys F = true := by
+  simp [visibleName, featuresOf_of_mem hf.tableNodup ht] at hv
+  exact hv.2
+
+theorem mem_refNames_field {ι : Type} {t : TypeDef ι} {f : FieldDef ι} (hf : f ∈ t.fields) :
+    f.type.ref.leaf ∈ t.refNames := by
+  simp only [TypeDef.refNames, List.mem_append, List.mem_flatMap]
+  exact Or.inl (Or.inl (Or.inl ⟨f, hf, List.mem_cons_self⟩))
+
+theorem mem_refNames_arg {ι : Type} {t : TypeDef ι} {f : FieldDef ι} {a : InputValueDef ι}
+    (hf : f ∈ t.fields) (ha : a ∈ f.args) : a.type.ref.leaf ∈ t.refNames := by
+  simp only [TypeDef.refNames, List.mem_append, List.mem_flatMap]
+  exact Or.inl (Or.inl (Or.inl ⟨f, hf, List.mem_cons_of_mem _ (List.mem_map_of_mem (f := fun a => a.type.ref.leaf) ha)⟩))
+
+theorem mem_refNames_input {ι : Type} {t : TypeDef ι} {a : InputValueDef ι} (ha : a ∈ t.inputs) :
+    a.type.ref.leaf ∈ t.refNames := by
+  simp only [TypeDef.refNames, List.mem_append]
+  exact Or.inl (Or.inl (Or.inr (List.mem_map_of_mem (f := fun a => a.type.ref.leaf) ha)))
+
+theorem mem_refNames_iface {ι : Type} {t : TypeDef ι} {i : String} (hi : i ∈ t.ifaces) : i ∈ t.refNames := by
+  simp only [TypeDef.refNames, List.mem_append]
+  exact Or.inl (Or.inr hi)
+
+theorem mem_refNames_member {ι : Type} {t : TypeDef ι} {m : String} (hm : m ∈ t.members) : m ∈ t.refNames := by
+  simp only [TypeDef.refNames, List.mem_append]
+  exact Or.inr hm
+
+theorem mem_refNames {ι : Type} {t : TypeDef ι} {n : String} (h : n ∈ t.refNames) :
+    (∃ f ∈ t.fields, n = f.type.ref.leaf ∨ ∃ a ∈ f.args, n = a.type.ref.leaf)
+    ∨ (∃ a ∈ t.inputs, n = a.type.ref.leaf) ∨ n ∈ t.ifaces ∨ n ∈ t.members := by
+  simp only [TypeDef.refNames, List.mem_append, List.mem_flatMap, List.mem_cons, List.mem_map] at h
+  rcases h with ((⟨f, hf, h⟩ | ⟨a, ha, h⟩) | h) | h
+  · left
+    refine ⟨f, hf, ?_⟩
+    rcases h with h | ⟨a, ha, h⟩
+    · exact Or.inl h
+    · exact Or.inr ⟨a, ha, h.symm⟩
+  · right; left; exact ⟨a, ha, h.symm⟩
+  · right; right; left; exact h
+  · right; right; right; exact h
+
+theorem refData_leaf {ι : Type} (D : SchemaDef ι) (k : Nat) (r : TRef) {n : String}
+    (h : (refData D k r).leaf? = some n) : n = r.leaf := by
+  induction r generalizing k with
+  | named m => simp [refData, RefD.leaf?] at h; exact h.symm
+  | list t ih =>
+    cases k with
+    | zero => simp [refData, RefD.leaf?] at h
+    | succ k => simp only [refData, RefD.leaf?] at h; simpa [TRef.leaf] using ih k h
+  | nonNull t ih =>
+    cases k with
+    | zero => simp [refData, RefD.leaf?] at h
+    | succ k => simp only [refData, RefD.leaf?] at h; simpa [TRef.leaf] using ih k h
+
+theorem describeType_name (D V : SchemaDef Unit) (t : TypeDef Unit) : (describeType D V t).name = t.name := rfl
+
+/-- Every reference inside the description of one type of a closed visible schema leads to a type
+    of that schema. -/
+theorem describeType_refs {D V : SchemaDef Unit} (hc : ClosedV V) {t : TypeDef Unit} (ht : t ∈ V.types)
+    {r : RefD} (hr : r ∈ (describeType D V t).refs) {n : String} (hn : r.leaf? = some n) :
+    n ∈ V.types.map (·.name) := by
+  have hcl := hc.1 t ht
+  simp only [TypeD.refs, List.mem_append, List.mem_flatMap] at hr
+  rcases hr with ((⟨fd, hfd, hr⟩ | ⟨iv, hiv, hr⟩) | hr) | hr
+  · -- field type / argument type
+    simp only [describeType] at hfd
+    split at hfd
+    · simp only [Option.getD_some, List.mem_map] at hfd
+      obtain ⟨f, hf, rfl⟩ := hfd
+      simp only [FieldD.refs, fieldData, List.mem_cons, List.mem_flatMap, List.mem_map] at hr
+      rcases hr with rfl | ⟨ivd, ⟨a, ha, rfl⟩, hr⟩
+      · rw [refData_leaf _ _ _ hn]; exact hcl _ (mem_refNames_field hf)
+      · simp only [InputValueD.refs, inputValueData, List.mem_singleton] at hr
+        subst hr
+        rw [refData_leaf _ _ _ hn]; exact hcl _ (mem_refNames_arg hf ha)
+    · simp at hfd
+  · simp only [describeType] at hiv
+    split at hiv
+    · simp only [Option.getD_some, List.mem_map] at hiv
+      obtain ⟨a, ha, rfl⟩ := hiv
+      simp only [InputValueD.refs, inputValueData, List.mem_singleton] at hr
+      subst hr
+      rw [refData_leaf _ _ _ hn]; exact hcl _ (mem_refNames_input ha)
+    · simp at hiv
+  · simp only [describeType] at hr
+    split at hr
+    · simp only [Option.getD_some, List.mem_map] at hr
+      obtain ⟨i, hi, rfl⟩ := hr
+      have := refData_leaf _ _ _ hn
+      simp only [TRef.leaf] at this
+      rw [this]; exact hcl _ (mem_refNames_iface hi)
+    · simp at hr
+  · simp only [describeType] at hr
+    split at hr
+    · simp only [Option.getD_some, List.mem_map] at hr
+      obtain ⟨o, ho, rfl⟩ := hr
+      have := refData_leaf _ _ _ hn
+      simp only [TRef.leaf] at this
+      rw [this]
+      have ho' := mem_sortNames.mp ho
+      simp only [implementers, List.mem_map, List.mem_filter] at ho'
+      obtain ⟨u, ⟨hu, _⟩, rfl⟩ := ho'
+      exact List.mem_map_of_mem (f := fun (x : TypeDef Unit) => x.name) hu
+    · split at hr
+      · simp only [Option.getD_some, List.mem_map] at hr
+        obtain ⟨m, hm, rfl⟩ := hr
+        have := refData_leaf _ _ _ hn
+        simp only [TRef.leaf] at this
+        rw [this]; exact hcl _ (mem_refNames_member hm)
+      · simp at hr
+
+
+/-! ### Clone: contents -/
+
+abbrev er {ι : Type} : ι → Unit := fun _ => ()
+
+theorem map_map_congr {α β γ : Type} {f : α → β} {g : β → γ} {h : α → γ} {l : List α}
+    (H : ∀ a ∈ l, g (f a) = h a) : (l.map f).map g = l.map h := by
+  rw [List.map_map]
+  exact List.map_congr_left (fun a ha => by simpa using H a ha)
+
+theorem erase_cloneIV0 (b : Nat) (x : InputValueDef0 Id) : (cloneIV0 b x).mapI er = x.mapI er := rfl
+
+theorem erase_cloneDirectiveDef (b : Nat) (x : DirectiveDef Id) : (cloneDirectiveDef b x).mapI er = x.mapI er := by
+  simp only [cloneDirectiveDef, DirectiveDef.mapI]
+  rw [map_map_congr (h := fun a => a.mapI er) (fun a _ => erase_cloneIV0 b a)]
+
+theorem erase_cloneArg (b : Nat) (x : Arg Id) : (cloneArg b x).mapI er = x.mapI er := rfl
+
+theorem erase_cloneApplied (b : Nat) (x : Applied Id) : (cloneApplied b x).mapI er = x.mapI er := by
+  simp only [cloneApplied, Applied.mapI, erase_cloneDirectiveDef]
+  rw [map_map_congr (h := fun a => a.mapI er) (fun a _ => erase_cloneArg b a)]
+
+theorem erase_cloneDirList (b : Nat) (x : DirList Id) : (cloneDirList b x).mapI er = x.mapI er := by
+  simp only [cloneDirList, DirList.mapI]
+  rw [map_map_congr (h := fun a => a.mapI er) (fun a _ => erase_cloneApplied b a)]
+
+theorem erase_cloneIV (b : Nat) (x : InputValueDef Id) : (cloneIV b x).mapI er = x.mapI er := by
+  simp only [cloneIV, InputValueDef.mapI, erase_cloneDirList]
+  rfl
+
+theorem erase_cloneField (b : Nat) (x : FieldDef Id) : (cloneField b x).mapI er = x.mapI er := by
+  simp only [cloneField, FieldDef.mapI, erase_cloneDirList]
+  rw [map_map_congr (h := fun a => a.mapI er) (fun a _ => erase_cloneIV b a)]
+  rfl
+
+theorem erase_cloneEnumValue (b : Nat) (x : EnumValueDef Id) : (cloneEnumValue b x).mapI er = x.mapI er := by
+  simp only [cloneEnumValue, EnumValueDef.mapI, erase_cloneDirList]
+
+theorem erase_cloneType (b : Nat) (x : TypeDef Id) : (cloneType b x).mapI er = x.mapI er := by
+  simp only [cloneType, TypeDef.mapI, erase_cloneDirList]
+  rw [map_map_congr (h := fun a => a.mapI er) (fun a _ => erase_cloneField b a),
+      map_map_congr (h := fun a => a.mapI er) (fun a _ => erase_cloneEnumValue b a),
+      map_map_congr (h := fun a => a.mapI er) (fun a _ => erase_cloneIV b a)]
+  rfl
+
+theorem erase_cloneDef (b : Nat) (d : GDef) : (cloneDef b d).erase = d.erase := by
+  simp only [cloneDef, SchemaDef.erase, SchemaDef.mapI]
+  rw [map_map_congr (h := fun a => a.mapI er) (fun a _ => erase_cloneDirectiveDef b a),
+      map_map_congr (h := fun (t : TypeDef Id) => t.mapI er)
+        (fun t _ => by split <;> simp [erase_cloneType])]
+
+
+/-! ### Clone: identities -/
+
+theorem fresh_ge {b : Nat} {i : Id} {n : Nat} (h : n ∈ idList (fresh b i)) : b ≤ n := by
+  cases i with
+  | none => simp [fresh, idList] at h
+  | some k => simp [fresh, idList] at h; omega
+
+theorem flatMap_ge {α : Type} {b : Nat} {l : List α} {f : α → List Nat}
+    (H : ∀ a ∈ l, ∀ n ∈ f a, b ≤ n) {n : Nat} (h : n ∈ l.flatMap f) : b ≤ n := by
+  obtain ⟨a, ha, hn⟩ := List.mem_flatMap.mp h
+  exact H a ha n hn
+
+theorem flatMap_map_ge {α : Type} {b : Nat} {l : List α} {c : α → α} {f : α → List Nat}
+    (H : ∀ a, ∀ n ∈ f (c a), b ≤ n) {n : Nat} (h : n ∈ (l.map c).flatMap f) : b ≤ n := by
+  obtain ⟨a, ha, hn⟩ := List.mem_flatMap.mp h
+  obtain ⟨a0, _, rfl⟩ := List.mem_map.mp ha
+  exact H a0 n hn
+
+theorem ids_cloneTypeAt {b : Nat} (x : TypeAt Id) : ∀ n ∈ (cloneTypeAt b x).ids, b ≤ n := by
+  intro n h; exact fresh_ge h
+
+theorem ids_cloneFeat {b : Nat} (x : Feat Id) : ∀ n ∈ (cloneFeat b x).ids, b ≤ n := by
+  intro n h; exact fresh_ge h
+
+theorem ids_cloneIV0 {b : Nat} (x : InputValueDef0 Id) : ∀ n ∈ (cloneIV0 b x).ids, b ≤ n := by
+  intro n h
+  simp only [InputValueDef0.ids, cloneIV0, List.mem_append] at h
+  rcases h with h | h
+  · exact fresh_ge h
+  · exact ids_cloneTypeAt _ n h
+
+theorem ids_cloneDirectiveDef {b : Nat} (x : DirectiveDef Id) : ∀ n ∈ (cloneDirectiveDef b x).ids, b ≤ n := by
+  intro n h
+  simp only [DirectiveDef.ids, cloneDirectiveDef, List.mem_append] at h
+  rcases h with ((h | h) | h) | h
+  · exact fresh_ge h
+  · exact fresh_ge h
+  · exact fresh_ge h
+  · exact flatMap_map_ge (fun a => ids_cloneIV0 a) h
+
+theorem ids_cloneArg {b : Nat} (x : Arg Id) : ∀ n ∈ (cloneArg b x).ids, b ≤ n := by
+  intro n h; exact fresh_ge h
+
+theorem ids_cloneApplied {b : Nat} (x : Applied Id) : ∀ n ∈ (cloneApplied b x).ids, b ≤ n := by
+  intro n h
+  simp only [Applied.ids, cloneApplied, List.mem_append] at h
+  rcases h with ((h | h) | h) | h
+  · exact fresh_ge h
+  · exact ids_cloneDirectiveDef _ n h
+  · exact fresh_ge h
+  · exact flatMap_map_ge (fun a => ids_cloneArg a) h
+
+theorem ids_cloneDirList {b : Nat} (x : DirList Id) : ∀ n ∈ (cloneDirList b x).ids, b ≤ n := by
+  intro n h
+  simp only [DirList.ids, cloneDirList, List.mem_append] at h
+  rcases h with h | h
+  · exact fresh_ge h
+  · exact flatMap_map_ge (fun a => ids_cloneApplied a) h
+
+theorem ids_cloneIV {b : Nat} (x : InputValueDef Id) : ∀ n ∈ (cloneIV b x).ids, b ≤ n := by
+  intro n h
+  simp only [InputValueDef.ids, cloneIV, List.mem_append] at h
+  rcases h with (h | h) | h
+  · exact fresh_ge h
+  · exact ids_cloneTypeAt _ n h
+  · exact ids_cloneDirList _ n h
+
+theorem ids_cloneField {b : Nat} (x : FieldDef Id) : ∀ n ∈ (cloneField b x).ids, b ≤ n := by
+  intro n h
+  simp only [FieldDef.ids, cloneField, List.mem_append] at h
+  rcases h with ((((h | h) | h) | h) | h) | h
+  · exact fresh_ge h
+  · exact ids_cloneTypeAt _ n h
+  · exact fresh_ge h
+  · exact flatMap_map_ge (fun a => ids_cloneIV a) h
+  · exact ids_cloneFeat _ n h
+  · exact ids_cloneDirList _ n h
+
+theorem ids_cloneEnumValue {b : Nat} (x : EnumValueDef Id) : ∀ n ∈ (cloneEnumValue b x).ids, b ≤ n := by
+  intro n h
+  simp only [EnumValueDef.ids, cloneEnumValue, List.mem_append] at h
+  rcases h with h | h
+  · exact fresh_ge h
+  · exact ids_cloneDirList _ n h
+
+theorem ids_cloneType {b : Nat} (x : TypeDef Id) : ∀ n ∈ (cloneType b x).ids, b ≤ n := by
+  intro n h
+  simp only [TypeDef.ids, cloneType, List.mem_append] at h
+  rcases h with (((((((((h | h) | h) | h) | h) | h) | h) | h) | h) | h) | h
+  · exact fresh_ge h
+  · exact ids_cloneFeat _ n h
+  · exact ids_cloneDirList _ n h
+  · exact fresh_ge h
+  · exact flatMap_map_ge (fun a => ids_cloneField a) h
+  · exact fresh_ge h
+  · exact fresh_ge h
+  · exact fresh_ge h
+  · exact flatMap_map_ge (fun a => ids_cloneEnumValue a) h
+  · exact fresh_ge h
+  · exact flatMap_map_ge (fun a => ids_cloneIV a) h
+
+/-- Every named type of the table other than the built-in scalars is reached by `Inspect` (and
+    therefore copied by `Clone`). False only for a type that is referenced solely from the
+    definition of a directive applied to an object / interface / union / input-object type, field,
+    argument or enum value — `Inspect` does not look there; the harness's definitions satisfy it. -/
+def InspectClosed (d : GDef) : Prop :=
+  ∀ t ∈ d.types, isBuiltin t.name = false → t.name ∈ (registries d).names
+
+theorem cloneType_name (b : Nat) (t : TypeDef Id) : (cloneType b t).name = t.name := rfl
+
+theorem ids_cloneDef {b : Nat} {d : GDef} (hc : InspectClosed d) : ∀ n ∈ (cloneDef b d).ids, b ≤ n := by
+  intro n h
+  simp only [GDef.ids, cloneDef, List.mem_append, List.mem_flatMap, List.mem_filter, List.mem_map] at h
+  rcases h with ((⟨t', ⟨⟨t, ht, rfl⟩, hnb⟩, hn⟩ | h) | h) | ⟨dd, ⟨d0, _, rfl⟩, hn⟩
+  · have hname : (if (!isBuiltin t.name && (registries d).names.contains t.name) = true then cloneType b t else t).name = t.name := by
+      split <;> rfl
+    rw [hname] at hnb
+    have hnb' : isBuiltin t.name = false := by simpa using hnb
+    have hreach := hc t ht hnb'
+    have hcond : (!isBuiltin t.name && (registries d).names.contains t.name) = true := by
+      simp [hnb', hreach]
+    rw [if_pos hcond] at hn
+    exact ids_cloneType _ n hn
+  · exact fresh_ge h
+  · exact fresh_ge h
+  · exact ids_cloneDirectiveDef _ n hn
 
 
 end ApiFu.C10
